@@ -150,7 +150,7 @@ class Facts:
         self.adts = {a["def"]: a for a in d["items"]["adts"]}
         self.fns = {f["def"]: f for f in d["items"]["fns"]}
 
-    OPAQUE_HELPERS = ("methods::bdf::", "matrix::", "<matrix::", "dense::", "<dense::", "methods::hinit", "methods::Tolerance", "<methods::Tolerance")
+    OPAQUE_HELPERS = ("methods::bdf::weighted_rms_scaled", "methods::bdf::change_d", "methods::bdf::compute_r", "methods::bdf::matmul", "matrix::", "<matrix::", "dense::", "<dense::", "methods::hinit", "methods::Tolerance", "<methods::Tolerance")
 
     def inlinable(self, d):
         """crate-private helper functions that the interpreters step into (helpers the rules model themselves stay opaque)"""
